@@ -85,8 +85,8 @@ _CTX = None
 
 def _eval_chunk(job):
     """Evaluate all prefixes that start with one byte class (or the empty prefix)."""
-    fn, chars, labels = _CTX
-    ev = Evaluator(fn, intrinsics={'chars': chars})
+    fn, chars, labels, mod = _CTX
+    ev = Evaluator(fn, intrinsics={'chars': chars}, module=mod)
     n, fails = 0, []
     if job is None:
         combos = [()]
@@ -129,7 +129,7 @@ def r07a(chk, rid='R07.a'):
     other = next(b for b in range(0x7A, 0x100) if b not in byte_consts)
     labels = sorted(byte_consts) + [other]
     global _CTX
-    _CTX = (fn, _chars_intrinsic(m), labels)
+    _CTX = (fn, _chars_intrinsic(m), labels, m)
     import multiprocessing as mp
 
     jobs = [(first_label,) for first_label in labels] + [None]
@@ -156,7 +156,7 @@ def r07b(chk, rid='R07.b'):
     inputs += [P[:i] + 'x' for i in range(len(P))]  # diverging at every position
     inputs += [P + 'utf', P + 'utf-8"', P + 'utf-8";a{}', P + '"', 'a{}', P + 'x"y"']
     fu = m.get('detectencoding_unicode')
-    ev = Evaluator(fu)
+    ev = Evaluator(fu, module=m)
     n = 0
     for s in inputs:
         for final in (False, True):
@@ -176,7 +176,7 @@ def r07b(chk, rid='R07.b'):
                 chk.ob(rid, CODEC, 'detectencoding_unicode', f'input {s!r} final={final}', ok, f'answers {got}, expected one of {sorted(want, key=str)}')
     chk.ob(rid, CODEC, 'detectencoding_unicode', f'all {n} prefix relations decided', True)
     ff = m.get('_fixencoding')
-    ev = Evaluator(ff)
+    ev = Evaluator(ff, module=m)
     k = 0
     for s in inputs:
         for final in (False, True):
